@@ -7,6 +7,7 @@
 From Coq Require Import List Arith Lia Bool PeanoNat String.
 Import ListNotations.
 From SP Require Import Skel Gen Expected ExpectedCones Result TaskFS TInv TPres Glue Cor TaskTop.
+From SP Require CopyFin.
 From SP Require FailWindow.
 
 (* T1: order of phases in Task.Execute and FinalizePaths; every failure exits the process; FileIP.Write goes beneath the temp dir *)
@@ -119,6 +120,16 @@ Theorem C01_cone_conforms :
   && strs_eqb cone_CheckWithMsg exp_cone_CheckWithMsg = true.
 Proof. vm_compute. reflexivity. Qed.
 
+(* what ARename takes from the operating system: rename(2) makes the complete file appear in one step.  A finalization that
+   copies onto the final path (a fall-back for rename across file systems, say) shows a prefix first; killed there, a partial file
+   lies under the final name although the command produced something else *)
+Theorem C01_copying_finalize_refuted :
+  exists s, CopyFin.crun CopyFin.one (init CopyFin.one (fun _ => None) (fun _ => false))
+              [CopyFin.Plain (AStart 0); CopyFin.Plain (AChkTemp 0); CopyFin.Plain (AChkOut 0); CopyFin.Plain (AMkTemp 0);
+               CopyFin.Plain (ACmdOk 0 []); CopyFin.Plain (AEnsure 0 [0]); CopyFin.CopyPart 0 0 4] = Some s
+            /\ fin s 0 = Some 4 /\ val s 0 = [42] /\ sem (tk CopyFin.one 0) [] = Some [42].
+Proof. exact CopyFin.copying_finalize_refuted. Qed.
+
 Print Assumptions C01_code_conforms.
 Print Assumptions C01_order_facts.
 Print Assumptions C01_atomic.
@@ -130,3 +141,4 @@ Print Assumptions C01_window_failed_leaves_nothing.
 Print Assumptions C01_window_nonvacuous.
 Print Assumptions C01_returning_fail_refuted.
 Print Assumptions C01_cone_conforms.
+Print Assumptions C01_copying_finalize_refuted.
